@@ -108,7 +108,7 @@ def execute(scn, want_events=False):
         try:
             for op in scn['ops']:
                 rec = {'id': op['id'], 'op': op, 'ret': None, 'exc': None, 'exc_msg': None,
-                       'io': [], 'wire': {}, 'writes': [], 'write_owner': [], 'reads': [],
+                       'io': [], 'wire': {}, 'writes': [], 'write_owner': [], 'reads': [], 'trace': [],
                        'requests': [], 'faults_fired': [], 'opened': [], 'closed': [], 'enums': 0,
                        't0': world.now, 'before': None, 'after': None}
                 hist.ops.append(rec)
